@@ -20,10 +20,15 @@ order of the worker payloads):
     replaced by the identity.
 
 Violation keys are structural: {part, op, file_class, literal_class, nan,
-types}.  `file_class` / `literal_class` describe the file's value multiset and
-the literal's position relative to the file's [min, max]; `nan` says which
-side holds a NaN; `types` is the (sorted, '+'-joined) set of column types for
-which this structural scenario failed in this run.
+types}.  `file_class` is the number of distinct non-NULL, non-NaN values of
+the skipped file (no_values / single / range), `literal_class` the literal's
+position relative to the file's decoded [min, max] (for in/not_in sets a
+coarse alphabet: in_range, out_of_range, nan, null, wrongtype, inexact32),
+`nan` says which side holds a NaN, `types` is the (sorted, '+'-joined) set of
+column types for which this structural scenario failed in this run.  An
+unsound case that contains a simpler unsound case (fewer file symbols, a
+singleton instead of a pair set, the bare comparison instead of the
+conjunction) is reported under the simpler case's key.
 """
 from __future__ import annotations
 
@@ -488,7 +493,7 @@ def decision_worker(payload: Tuple[str, str, int, int]) -> Dict[str, Any]:
                               {"part": "decision", "type": tname, "file": list(symbols), "filter": list(sf), "error": r.get("error")})
             if st == "UNSOUND":
                 unsound[(symbols, sf)] = r
-            if st == "pruned_sound" and not sampled and len(symbols) >= 2 and sf[0] == "between":
+            if st == "pruned_sound" and not sampled and tname in ("double", "string") and len(symbols) >= 2 and sf[0] == "between" and sf[1] != sf[2]:
                 sampled = True
                 rep.sample({"part": "decision", "type": tname, "file_values": repr([sym_value(tname, s) for s in symbols]),
                             "filter": repr(ctx["filters"][sf][0]), "bounds": [repr(lo), repr(hi)], "result": r})
@@ -505,7 +510,7 @@ def decision_worker(payload: Tuple[str, str, int, int]) -> Dict[str, Any]:
                        "decoded_lower": repr(ctx["files"][symbols][2]), "decoded_upper": repr(ctx["files"][symbols][3]),
                        "may_match": False, "rows_matching_under_compute_engine": unsound[case]["matching_rows"]})
     rep.add("decision_file_multisets", len(ctx["files"]))
-    rep.cov.setdefault("decision_filters_per_type", {})[tname] = len(ctx["filters"])
+    rep.setmax(f"max_decision_filters_per_file:{tname}", len(ctx["filters"]))
     return rep.part()
 
 
@@ -596,7 +601,7 @@ def roundtrip_worker(payload: Tuple[str, str, int]) -> Dict[str, Any]:
                 else:
                     rep.add("roundtrip_exact")
         rep.add("roundtrip_tables")
-        if tname in ("long", "float"):
+        if (tname, cname) in (("long", "beyond_2p53"), ("float", "f32_rounding")):
             rep.sample({"part": "roundtrip", "type": tname, "case": cname, "files": repr(files),
                         "decoded": [[repr((f.lower_bounds or {}).get(C_ID)), repr((f.upper_bounds or {}).get(C_ID))] for f in got]})
     return rep.part()
@@ -704,7 +709,7 @@ def _e2e_table(rep: Report, tname: str, layout: Tuple[Tuple[str, ...], ...], sfs
                     continue
                 if _canon_rows(res_p) == _canon_rows(res_u):
                     rep.add("e2e_equal")
-                    if sk and not sampled and len(res_u) > 0:
+                    if sk and not sampled and len(res_u) > 0 and tname in ("double", "long") and tag.startswith("0-"):
                         sampled = True
                         rep.sample({"part": "e2e", "type": tname, "layout": [list(f) for f in layout], "filter": repr(fd), "api": api,
                                     "skipped_file_indexes": sk, "rows": len(res_u)})
@@ -742,7 +747,7 @@ def e2e_worker(payload: Tuple[str, str, int, List[Tuple[Tuple[str, ...], ...]], 
     tname, tier, seed, layouts, chunk = payload
     rep = Report(PROP, tier, seed, "exploration")
     sfs = symbolic_filters(tname, "e2e")
-    rep.cov.setdefault("e2e_filters_per_type", {})[tname] = len(sfs)
+    rep.setmax(f"max_e2e_filters_per_table:{tname}", len(sfs))
     for n, layout in enumerate(layouts):
         _e2e_table(rep, tname, layout, sfs, f"{chunk}-{n}")
     return rep.part()
